@@ -524,6 +524,10 @@ class ConfigParser(object):
     basic_type_tokens = [tokenize.NAME, tokenize.NUMBER, tokenize.STRING]
     continue_parsing = self._current_token.type in basic_type_tokens
     if not continue_parsing:
+      if token_value:
+        # The dash has been consumed: it must not be dropped silently in front
+        # of something else (`-@fn()`, `-%macro`, `-[1]`).
+        self._raise_syntax_error("Unexpected token after '-'.")
       return False, None
 
     while continue_parsing:
